@@ -1,9 +1,102 @@
 /-
-  Helper lemmas for C18 (sweep, blocks, cfg insertion).
+  Helper lemmas for C18 — umbrella file and the refinement
+  `addVertex` (model of `cfg.graph.add_vertex` on the zone of blocks) = `absAdd` (the same algorithm on
+  index intervals), for zones that hold runs of one consecutive stream.
 -/
-import Amoco.Model.Blocks
-import Amoco.Model.Cfg
+import Amoco.Proofs.CfgBlocks
+import Amoco.Proofs.CfgStream
+import Amoco.Proofs.CfgAbs
+import Amoco.Proofs.CfgZone
 
-namespace Amoco.Blocks
+namespace Amoco.Cfg
 
-end Amoco.Blocks
+open Amoco.Blocks
+
+variable {S : List Instr}
+
+def lift (S : List Instr) (a : Nat) : Option (List Iv × Edges) → Res
+  | none => .error
+  | some (ivs, E) => .ok ⟨rep S ivs, E⟩ a
+
+theorem blen_run_lt_iff (hS : StreamOK S) (s a b : Nat) (ha : s ≤ a) (hb : s ≤ b) (ha' : a ≤ S.length) (hb' : b ≤ S.length) :
+    blen (run S s a) < blen (run S s b) ↔ a < b := by
+  have h1 := addrOf_add (S := S) s a ha ha'
+  have h2 := addrOf_add (S := S) s b hb hb'
+  have := addrOf_lt_iff hS a b ha' hb'
+  omega
+
+theorem gapAdd_refines (hS : StreamOK S) (rec : Graph → Block → Res)
+    (arec : List Iv × Edges → Nat → Nat → Option (List Iv × Edges))
+    (hrec : ∀ ivs1 E1 ns e', IvsOK S.length ivs1 → ns < e' → e' ≤ S.length →
+      rec ⟨rep S ivs1, E1⟩ (run S ns e') = lift S (addrOf S ns) (arec (ivs1, E1) ns e'))
+    (pre post : List Iv) (E : Edges) (s e : Nat) (hok : IvsOK S.length (pre ++ post))
+    (hse : s < e) (he : e ≤ S.length)
+    (hpre : ∀ iv ∈ pre, iv.2 ≤ s) (hpost : ∀ iv ∈ post, s < iv.1)
+    (i : Option Nat) (hi : nextIdx i = pre.length) :
+    gapAdd rec ⟨rep S (pre ++ post), E⟩ (run S s e) (addrOf S s) i =
+      lift S (addrOf S s) (absGap (addrOf S) arec E s e pre post) := by
+  unfold gapAdd
+  have hget : (rep S (pre ++ post))[nextIdx i]? = (rep S post)[0]? := by
+    rw [hi, rep_append, ← rep_length (S := S) pre, List.getElem?_append_right (Nat.le_refl _)]
+    simp
+  rw [hget]
+  cases post with
+  | nil =>
+    simp only [rep_nil, List.getElem?_nil]
+    unfold absGap
+    simp only [zoneWrite]
+    rw [addtomap_gap hS pre [] s e hok hse he hpre (by simp)]
+    rfl
+  | cons hd post' =>
+    obtain ⟨ns, ne⟩ := hd
+    have hm := hok.mem (show (ns, ne) ∈ pre ++ (ns, ne) :: post' by simp)
+    simp at hm
+    have hns : s < ns := hpost (ns, ne) (by simp)
+    have hpw := hok.2
+    rw [List.pairwise_append] at hpw
+    have hpw2 := hpw.2.1
+    rw [List.pairwise_cons] at hpw2
+    have hafter : ∀ iv ∈ (ns, ne) :: post', ns ≤ iv.1 := by
+      intro iv hiv
+      rcases List.mem_cons.mp hiv with rfl | hiv
+      · exact Nat.le_refl _
+      · have := hpw2.1 iv hiv; simp at this; omega
+    simp only [rep_cons, List.getElem?_cons_zero]
+    have haddr : address? (repMo S (ns, ne)).blk = some (addrOf S ns) :=
+      address_run hS ns ne hm.1 hm.2
+    rw [haddr]
+    simp only
+    have hcond : (addrOf S s + blen (run S s e) > addrOf S ns) ↔ ns < e := by
+      rw [addrOf_add s e (by omega) he]
+      exact addrOf_lt_iff hS ns e (by omega) he
+    unfold absGap
+    by_cases hlt : ns < e
+    · have hc : addrOf S s + blen (run S s e) > addrOf S ns := hcond.mpr hlt
+      simp only [hc, if_true, hlt]
+      rw [cut_run hS s ns e (by omega) hlt he]
+      simp only
+      have hnl : ¬ (e - ns = 0) := by omega
+      simp only [hnl, if_false]
+      have hrest : (run S s e).drop ((run S s e).length - (e - ns)) = run S ns e := by
+        rw [run_length s e he]
+        have := run_drop (S := S) s ns e (by omega)
+        rw [show e - s - (e - ns) = ns - s by omega]
+        exact this
+      rw [hrest]
+      simp only [zoneWrite]
+      rw [addtomap_gap hS pre ((ns, ne) :: post') s ns hok hns (by omega) hpre hafter]
+      simp only
+      have hok1 : IvsOK S.length (pre ++ (s, ns) :: (ns, ne) :: post') :=
+        ivsOK_insert hok hns (by omega) hpre hafter
+      rw [hrec _ E ns e hok1 hlt he]
+      cases arec (pre ++ (s, ns) :: (ns, ne) :: post', E) ns e with
+      | none => rfl
+      | some r => obtain ⟨ivs2, E2⟩ := r; rfl
+    · have hc : ¬ (addrOf S s + blen (run S s e) > addrOf S ns) := fun h => hlt (hcond.mp h)
+      simp only [hc, if_false, hlt]
+      simp only [zoneWrite]
+      rw [addtomap_gap hS pre ((ns, ne) :: post') s e hok hse he hpre
+        (fun iv hiv => by have := hafter iv hiv; omega)]
+      rfl
+
+end Amoco.Cfg
